@@ -21,7 +21,12 @@ RULE = ("per class (LRUCache, SimpleCache, HybridCache, DiskCache) and max_size 
         "shared=True variants of the same trees at smaller depth (one in-process manager); ALL schedules of two clients "
         "issuing 1-2 put/get/in/len/clear operations each on one cache (step scheduler: every call on the cache's "
         "dict/list/lock is one step), each schedule replayed on the small-step model SharedSteps and the outcome "
-        "compared schedule by schedule (and judged against the linearizations of the abstract spec); random sequences of <= 40 explicit "
+        "compared schedule by schedule (and judged against the linearizations of the abstract spec); DiskCache RE-OPENED "
+        "ON A FILLED DIRECTORY for max_size 2..3: >= max_size puts of distinct keys, Reopen (same / smaller / larger / "
+        "no max_size; with_lru_cache on and off; lru_cache_size below, at and above max_size), then fixed scripts (puts "
+        "of NEW keys, `in` for every key and len after each, gets of the oldest keys), the COMPLETE tree of the next "
+        "2 (thorough 3) operations, and random continuations with further reopens - spec_ok demands the outputs of the "
+        "creation-ordered bounded file list (len <= max_size after the put, oldest file gone); random sequences of <= 40 explicit "
         "put/get/in/len/clear/reopen operations incl. zero, subnormal and huge float durations; hand-written witnesses "
         "of the repaired defects.  A tree case counts as ONE case although it covers hundreds to thousands of "
         "sequences; non-trivial = every tree and every two-client case, and every sequence that puts more distinct keys "
@@ -520,6 +525,61 @@ def random_seq(rng, cfg, n, keys):
     return {"kind": "seq", "cfg": cfg, "ops": ops}
 
 
+def reopen_cases(rng, quick):
+    """DiskCache on a directory that already holds files this instance has never seen: fill the directory with
+    >= max_size distinct keys, re-open it (same / smaller / larger / no max_size; with and without the LRU front,
+    lru_cache_size below, at and above max_size), then
+      (a) fixed scripts: put NEW keys, `in` for every key and len after each put, get of the oldest keys;
+      (b) the COMPLETE tree of put/get/clear/reopen sequences of depth 2 (thorough: 3) from that point;
+      (c) random continuations."""
+    cases = []
+
+    def probes(keys):
+        return [["M", k] for k in range(keys)] + [["L"]]
+
+    for mx in (2, 3):
+        keys = mx + 2
+        variants = [(True, mx), (True, mx + 1), (True, 1), (False, 1)] + ([(True, 2)] if mx == 3 else [])
+        for wl, ls in variants:
+            for fill in (mx, mx + 1):
+                for m2 in (mx, mx - 1, mx + 1, None):
+                    pre = [["P", k % keys, k, 0.0] for k in range(fill)]
+                    new1, new2 = fill % keys, (fill + 1) % keys
+                    ops = (pre + [["L"], ["R", m2], ["L"], ["P", new1, 20, 0.0]] + probes(keys)
+                           + [["G", 0], ["P", new2, 21, 0.0]] + probes(keys) + [["G", 1], ["G", new1], ["L"]])
+                    cases.append({"kind": "seq", "cfg": _disk(mx, wl, ls), "ops": ops})
+            # (b) everything that can happen in the next steps after fill + reopen
+            for m2 in ((mx, mx - 1) if quick else (mx, mx - 1, mx + 1, None)):
+                if quick and (wl, ls) not in ((True, mx), (False, 1)):
+                    continue
+                prefix = [["P", k, k, 0.0] for k in range(mx)] + [["R", m2]]
+                cases.append({"kind": "tree", "cfg": _disk(mx, wl, ls), "keys": mx + 1, "durs": [0.0],
+                              "reopens": [mx], "prefix": prefix, "depth": 2 if quick else 3})
+    # (c) random: fill, reopen, then a random continuation with further reopens
+    for _ in range(12 if quick else 150):
+        mx = rng.choice([2, 2, 3])
+        keys = mx + 2
+        wl = rng.random() < 0.8
+        ls = rng.choice([1, mx, mx, mx + 1])
+        order = rng.sample(range(keys), keys)
+        ops = [["P", order[i % keys], i, 0.0] for i in range(rng.randint(mx, mx + 2))]
+        for _ in range(rng.randint(1, 3)):
+            ops.append(["R", rng.choice([mx, mx, mx - 1, mx + 1, None])])
+            for _ in range(rng.randint(1, 5)):
+                r = rng.random()
+                k = rng.randrange(keys)
+                if r < 0.5:
+                    ops += [["P", k, rng.randrange(41), 0.0]] + probes(keys)
+                elif r < 0.8:
+                    ops.append(["G", k])
+                elif r < 0.95:
+                    ops += probes(keys)
+                else:
+                    ops.append(["X"])
+        cases.append({"kind": "seq", "cfg": _disk(mx, wl, ls), "ops": ops[:60]})
+    return cases
+
+
 def witnesses():
     P = lambda k, v, d=0.0: ["P", k, v, d]
     probe3 = [["M", 0], ["M", 1], ["M", 2], ["L"]]
@@ -590,6 +650,8 @@ def generate(rng, tier, mult):
     ]
     for cfg, keys, durs, reopens, dq, dt in plan:
         cases += tree_cases(cfg, keys, durs, reopens, dq if quick else dt)
+    # --- DiskCache re-opened on a filled directory
+    cases += reopen_cases(rng, quick)
     # --- two concurrent clients (locked operations put/get), all schedules
     cases += conc_cases(rng, quick)
     # --- random longer sequences
